@@ -1101,7 +1101,7 @@ func main() {
 	}
 	rng := vh.NewRng(o.Seed)
 	rep := vh.NewReport("C03", o.Seed, o.Tier)
-	rep.Rule = "scalars, per implementation (ed25519, mod.Int for P-256/BN256/BN254/kilic/QR-512 and synthetic moduli in both byte orders, CIRCL, gnark): reduced values {0,1,q-1,small,2^k,edge-biased operands} reached via arithmetic/SetBytes/Neg/Pick/UnmarshalBinary -> MarshalBinary, UnmarshalBinary, re-encoding, Equal; MarshalTo onto a pre-filled writer; UnmarshalFrom through plain/one-byte/half readers with tails and truncated inputs; hex helpers (upper/lower case, tails, truncated). points, per group (edwards25519, 3 vartime curves, P-256, QR-512, G1/G2/GT of bn256, bn254, kilic, CIRCL, gnark): pools of values reached by different computation paths (Null, B-B, 0*B, q*B, B+B, 2B, -(q-2)B, kB three ways, picked/embedded/hashed points and their multiples, pairing outputs): partition by model logarithm = partition by bytes = partition by Equal; points with 1..31 (63) leading zero bytes in a coordinate, computed by the harness from the curve equations (P-256, BN256/BN254 G1, residue group, Ed25519 x3), decoded and re-encoded directly / after Neg / after arithmetic, byte-exact against the fixed-width layout model; multiples i*B by repeated addition selected for zero bytes at field starts; every reader-based helper driven with plain / one-byte / half / data+EOF (one chunk, single bytes) / empty-read readers. object histories (history.go), for every scalar implementation and every group (plus two further vartime curve objects, oracles only): receiver - UnmarshalBinary, UnmarshalFrom, SetBytes (empty, minimal, full, long), SetInt64 (0, 1, -1, small, large, negative), Zero, One, Set, Pick / point UnmarshalBinary and UnmarshalFrom of the identity, B, -B, kB, Null, Base, Set, Pick, Embed are executed on a fresh object and on dirty ones (holding 0/identity, 1/base, q-1/-B, a full-width or small value, a product / a Mul or Add result in projective coordinates, Sub(A,A), a picked value, a value decoded once or twice, whatever a refused decode of a short / out-of-range / garbage buffer left, an object cleared by Null): same encoding, Equal, String and same result of a later addition as on the fresh receiver, and the canonical bytes of the known value (scalars: some handed to the model as CScalar); buffer - the slice handed to UnmarshalBinary/SetBytes/Embed sits inside a larger array that is compared with a snapshot afterwards, is decoded a second time, then overwritten and the object re-encoded; slices returned by MarshalBinary/Data are overwritten and the object re-encoded; provenance - scalars Neg(0), Sub(a,a), Add(a,Neg(a)), Add(q-1,1), Mul(a,0), Inv(1), Div(a,a), Neg(Neg(a)), SetInt64(negative), SetBytes(long) ...: canonical bytes (CScalar), Equal to the decoded value, Equal iff same bytes pairwise; points Neg(Null), Neg(Neg(Null)), Sub(X,X) and Add(X,Neg(X)) on ONE object, 0*A, q*A, Mul by the scalars Add(q-1,1) / Add(k,-k), k*Null, Null+Null, pairings with an identity argument, and finite values after Neg(Neg), (A+B)-B, A+Null, (q-1)*A: one pool per group with the battery on each, partition by logarithm = by bytes = by Equal (CPoints), identity encodings byte for byte against Null() and against the layout model (CCoord: P-256, BN G1, residue, Ed25519 x3). distinct = distinct canonical case text; non-trivial = non-zero value / pool of >= 2 points"
+	rep.Rule = "scalars, per implementation (ed25519, mod.Int for P-256/BN256/BN254/kilic/QR-512 and synthetic moduli in both byte orders, CIRCL, gnark): reduced values {0,1,q-1,small,2^k,edge-biased operands} reached via arithmetic/SetBytes/Neg/Pick/UnmarshalBinary -> MarshalBinary, UnmarshalBinary, re-encoding, Equal; MarshalTo onto a pre-filled writer; UnmarshalFrom through plain/one-byte/half readers with tails and truncated inputs; hex helpers (upper/lower case, tails, truncated). points, per group (edwards25519, 3 vartime curves, P-256, QR-512, G1/G2/GT of bn256, bn254, kilic, CIRCL, gnark): pools of values reached by different computation paths (Null, B-B, 0*B, q*B, B+B, 2B, -(q-2)B, kB three ways, picked/embedded/hashed points and their multiples, pairing outputs): partition by model logarithm = partition by bytes = partition by Equal; points with 1..31 (63) leading zero bytes in a coordinate, computed by the harness from the curve equations (P-256, BN256/BN254 G1, residue group, Ed25519 x3), decoded and re-encoded directly / after Neg / after arithmetic, byte-exact against the fixed-width layout model; multiples i*B by repeated addition selected for zero bytes at field starts; every reader-based helper driven with plain / one-byte / half / data+EOF (one chunk, single bytes) / empty-read readers. object histories (history.go), for every scalar implementation and every group (plus two further vartime curve objects, oracles only): receiver - UnmarshalBinary, UnmarshalFrom, SetBytes (empty, minimal, full, long), SetInt64 (0, 1, -1, small, large, negative), Zero, One, Set, Pick / point UnmarshalBinary and UnmarshalFrom of the identity, B, -B, kB, Null, Base, Set, Pick, Embed are executed on a fresh object and on dirty ones (holding 0/identity, 1/base, q-1/-B, a full-width or small value, a product / a Mul or Add result in projective coordinates, Sub(A,A), a picked value, a value decoded once or twice, whatever a refused decode of a short / out-of-range / garbage buffer left, an object cleared by Null): same encoding, Equal, String and same result of a later addition as on the fresh receiver, and the canonical bytes of the known value (scalars: some handed to the model as CScalar); buffer - the slice handed to UnmarshalBinary/SetBytes/Embed sits inside a larger array that is compared with a snapshot afterwards, is decoded a second time, then overwritten and the object re-encoded; slices returned by MarshalBinary/Data are overwritten and the object re-encoded; provenance - scalars Neg(0), Sub(a,a), Add(a,Neg(a)), Add(q-1,1), Mul(a,0), Inv(1), Div(a,a), Neg(Neg(a)), SetInt64(negative), SetBytes(long) ...: canonical bytes (CScalar), Equal to the decoded value, Equal iff same bytes pairwise; points Neg(Null), Neg(Neg(Null)), Sub(X,X) and Add(X,Neg(X)) on ONE object, 0*A, q*A, Mul by the scalars Add(q-1,1) / Add(k,-k), k*Null, Null+Null, pairings with an identity argument, and finite values after Neg(Neg), (A+B)-B, A+Null, (q-1)*A: one pool per group with the battery on each, partition by logarithm = by bytes = by Equal (CPoints), identity encodings byte for byte against Null() and against the layout model (CCoord: P-256, BN G1, residue, Ed25519 x3); a decoded identity encoding joins every provenance pool. special values (special.go): per group a list of special byte strings is offered to the decoder (identity encoding, all-zero, all-zero with the top bit of the last / first byte, first byte 4 / 0x40 / 0xc0, 1 and 2 little endian, 1 with the sign bit, 1 big endian, all-ones; Edwards curves: y=-1 with and without sign bit, y=-2, the four order-8 points of Ed25519; P-256 / BN G1: the points with x=0); every accepted one gets the battery, and together with its negation, double, sums with another special point and with kB, and the ordinary points Null, B, kB, -kB, decode(enc kB) forms a set over which Equal(a,b) == identical encodings is evaluated for EVERY ordered pair (diagonal included) and, outside GT, == (a-b encodes as the identity); special scalars {0,1,2,255,256,q-1,q-2,(q-1)/2,(q+1)/2,2^8k,2^8k-1,random} x {decoded, Sub(v+1,1), Neg(-v)}: Equal == identical encodings == same residue for every ordered pair. distinct = distinct canonical case text; non-trivial = non-zero value / pool of >= 2 points"
 	g := &gen{rep: rep, search: o.Search}
 	insts := sc.Instances()
 	nScalar, nPools, nCrafted, nScan := 1500, 4, 6, 200
@@ -1132,6 +1132,7 @@ func main() {
 			}
 		}
 		g.scalarHistory(in, r.Fork(), nHistEmit)
+		g.specialScalars(in, r.Fork())
 	}
 	for _, G := range groups(rep) {
 		r := rng.Fork()
